@@ -48,6 +48,7 @@ def oracle(op, line, facts):
         first.setdefault(s, pos); tfirst.setdefault(s, now)
         last[s] = pos; tlast[s] = now
     where = f"{op.get('level')}:{op.get('backend')}" + (":strict-delete" if op.get("strict") else "")
+    witness_replayed = None
     for i, a in enumerate(threads):
         for j, b in enumerate(threads):
             if i >= j or a["kind"] != b["kind"] or a["id"] != b["id"] or i >= len(outs) or j >= len(outs):
@@ -85,10 +86,23 @@ def run(ctx):
         "model scope: storage/session.go (Get/Put/Delete/GetAndDelete), session_inmemory.go, session_redis.go key construction; the store-call sequence of the six consumers in auth/api/iam",
     ]
     ctx.assumptions += [
-        "single node: atomicity obtained from an in-process mutex does not extend to several nodes sharing one Redis/memcached",
+        "single node: atomicity obtained from an in-process mutex does not extend to several nodes sharing one Redis/memcached (open known finding, exhibited on every run with a multi-node miniredis scenario)",
         "secrets are issued under fresh random keys (no Put of an existing burn-on-use key): regenerated fact fact_store_users pins the issuing functions",
     ]
-    corpus = os.path.join(os.path.dirname(os.path.dirname(os.path.abspath(__file__))), "harness", "corpus", "C05")
+    # corpus = the Lean witness schedules (printed by the driver from the defs the theorems are about) + past witnesses
+    import shutil, subprocess, glob
+    import vlib
+    corpus = os.path.join(ctx.scratch, "corpus")
+    os.makedirs(corpus, exist_ok=True)
+    try:
+        wl = subprocess.run([os.path.join(vlib.BIN, "nm_C05"), "witnesses"], stdout=subprocess.PIPE, text=True, timeout=60).stdout
+    except Exception as e:  # noqa
+        wl = ""
+    ctx.oblige("lean-witness-schedules-exported", wl.count("\n") >= 6, f"{wl.count(chr(10))} lines")
+    with open(os.path.join(corpus, "00_lean_witnesses.jsonl"), "w") as f:
+        f.write(wl)
+    for fn in glob.glob(os.path.join(os.path.dirname(os.path.dirname(os.path.abspath(__file__))), "harness", "corpus", "C05", "*.jsonl")):
+        shutil.copy(fn, corpus)
     ops, impl, model, bad = [], [], [], []
     for pkg, files, name, cwd in ((PKG, HARNESS, "c05", None), (IAM_PKG, IAM_HARNESS, "c05iam", os.path.join(vlib_repo(), IAM_PKG))):
         binary = ctx.go_test_binary(pkg, files, name)
@@ -124,6 +138,7 @@ def run(ctx):
 
     # ---- direct property oracle on the implementation's own outputs
     n_bad, seen, n_window = 0, set(), 0
+    lw = Counter()
     kinds, sizes, backends, succ_hist = Counter(), Counter(), Counter(), Counter()
     distinct = set()
     interleaved = 0
@@ -148,6 +163,14 @@ def run(ctx):
         if op.get("op") != "run":
             continue
         ths = op["threads"]
+        if op["scn"].startswith("lean-witness"):
+            nsucc = line.split(" ", 1)[0]
+            if op["backend"] == "redis-multinode" and nsucc == "succ=2":
+                lw["multi2"] += 1
+            elif op["backend"] != "redis-multinode" and nsucc == "succ=1":
+                lw["single1"] += 1
+            else:
+                lw["other"] += 1
         kinds[op.get("level", "?") + ":" + "+".join(sorted({t["kind"] for t in ths}))] += 1
         sizes[len(ths)] += 1
         backends[op["backend"] + ("/strict" if op.get("strict") else "")] += 1
@@ -163,7 +186,12 @@ def run(ctx):
             seen.add(sig)
             ctx.violation(sig, f"{what}; schedule {op['sched']} of scenario {op['scn']}: {line[:300]}",
                           re.sub(r"[^A-Za-z0-9_.-]", "_", sig) + ".jsonl", ops[i])
-    ctx.oblige("oracle:at-most-once+dead-after-attempt+dead-after-ttl(impl)", n_bad == 0, f"{n_bad} runs violate the property; signatures {sorted(seen)}")
+    unexpected = [x for x in seen if not any(k.get("status", "open") == "open" and re.fullmatch(k["signature"], x) for k in ctx.known)]
+    ctx.oblige("oracle:at-most-once+dead-after-attempt+dead-after-ttl(impl)", not unexpected,
+               f"{n_bad} runs violate the property; signatures {sorted(seen)}; not a known finding: {sorted(unexpected)}")
+    # the Lean witness schedules were replayed: two successes where the lock does not reach (several nodes), one on a single node
+    ctx.oblige("lean-witnesses-replayed-on-impl", lw["multi2"] >= 3 and lw["single1"] >= 6 and lw["other"] == 0,
+               f"multinode runs with 2 successes: {lw['multi2']}, single-node runs with 1 success: {lw['single1']}, unexpected: {lw['other']}")
 
     # ---- correspondence model vs implementation, schedule by schedule
     if bad:
